@@ -17,25 +17,40 @@ theorem writer_layout (shape bits bytes : List Nat) (hw : writeNpy shape bits = 
     ∃ L pad, bytes = npyMagic ++ [1, 0] ++ leBytes 2 L ++ asciiBytes (npyDict shape) ++ List.replicate pad 32 ++ [10]
         ++ (bits.map (leBytes 8)).flatten ∧
       L = (npyDict shape).length + pad + 1 ∧ (10 + L) % 64 = 0 ∧ pad < 64 ∧ L < 65536 := by
-  sorry
+  obtain ⟨hd, hh, rfl⟩ := writeNpy_eq_ok shape bits bytes hw
+  obtain ⟨L, pad, rfl, h⟩ := npyHeader_layout shape hd hh
+  exact ⟨L, pad, rfl, h⟩
 
 /-- The data offset (everything before the values) is a multiple of 64 and the values take exactly 8 bytes each. -/
 theorem writer_data_offset (shape bits bytes : List Nat) (hw : writeNpy shape bits = .ok bytes) :
     8 * bits.length ≤ bytes.length ∧ (bytes.length - 8 * bits.length) % 64 = 0 ∧
       bytes.drop (bytes.length - 8 * bits.length) = (bits.map (leBytes 8)).flatten := by
-  sorry
+  obtain ⟨L, pad, rfl, hL, h64, _, _⟩ := writer_layout shape bits bytes hw
+  have hv := flatten_leBytes8_length bits
+  generalize (bits.map (leBytes 8)).flatten = vals at hv ⊢
+  generalize hhd : npyMagic ++ [1, 0] ++ leBytes 2 L ++ asciiBytes (npyDict shape) ++ List.replicate pad 32 ++ [10] = hd
+  have hl : hd.length = 10 + L := by
+    subst hhd
+    simp only [List.length_append, npyMagic, List.length_cons, List.length_nil, leBytes_length, asciiBytes_length,
+      List.length_replicate]
+    omega
+  have : (hd ++ vals).length - 8 * bits.length = hd.length := by simp only [List.length_append]; omega
+  refine ⟨by simp only [List.length_append]; omega, by omega, ?_⟩
+  rw [this]; exact List.drop_left' rfl
 
 /-- The writer refuses (with an error, fix 1c25a8d) exactly when the padded header would not fit the v1.0 `u16` length field. -/
 theorem writer_error_iff (shape bits : List Nat) :
     writeNpy shape bits = .error .invalid ↔
       65536 ≤ (npyDict shape).length + (64 - (10 + (npyDict shape).length) % 64) := by
-  sorry
+  rw [← npyHeader_none_iff]
+  unfold writeNpy
+  split <;> simp_all
 
 /-- The dict the writer emits is the literal NPY 1.0 dictionary and the header grammar reads it back as
     little-endian f8, C order, the exact shape tuple. -/
 theorem writer_dict_parses (shape : List Nat) (hne : shape ≠ []) (hb : ∀ v ∈ shape, v < 2 ^ 64) :
     parseNpyDict (npyDict shape) = some ⟨.little, .f8, false, shape⟩ := by
-  sorry
+  simpa using parseNpyDict_npyDict shape [] hne hb
 
 /-! non-vacuity -/
 example : (writeNpy [1, 1, 10] (List.replicate 10 0)).toOption.map List.length = some (128 + 80) := by decide +kernel
